@@ -136,6 +136,9 @@ func c12Class(resp *logical.Response, err error) string {
 	msg := ""
 	if err != nil {
 		msg = err.Error()
+		if resp != nil && resp.IsError() { // e.g. (ErrorResponse, ErrInvalidRequest): the text is in the response
+			msg += ": " + resp.Error().Error()
+		}
 	} else if resp != nil && resp.IsError() {
 		msg = resp.Error().Error()
 	}
@@ -146,6 +149,8 @@ func c12Class(resp *logical.Response, err error) string {
 		return "denied"
 	case strings.Contains(msg, "relative paths not supported"):
 		return "err:relative"
+	case strings.Contains(msg, "not sealable"):
+		return "err:notsealable"
 	case strings.Contains(msg, "namespace is sealed"):
 		return "err:sealed"
 	case strings.Contains(msg, "namespace not found"):
@@ -254,6 +259,11 @@ func (k *c12Case) sealOp(i int, seal bool) string {
 		if sl, ok := resp.Data["sealed"].(bool); ok && sl {
 			cl = "ok:stillsealed"
 		}
+	}
+	if cl == "ok" && !n.sealable {
+		cl = "ok!VIOL:the seal request for namespace " + n.path + ", which has no seal of its own, was accepted (its mounts are torn down and there is no unseal)#seal-of-namespace-without-seal-accepted"
+		k.out.Op(cl, "sealns", vh.HexS(n.path), c12B(seal))
+		return "ok"
 	}
 	if cl == "ok" {
 		if seal {
@@ -864,6 +874,25 @@ func TestVerifC12Confine(t *testing.T) {
 			if nested && r.Chance(9) {
 				// seal / unseal (own shares) of out/ (2) or out/in/ (3) in any order; refusals are outcomes, not errors
 				k.sealOp(2+r.Intn(2), r.Chance(50))
+			}
+			if len(k.nss) > 1 && r.Chance(2) {
+				// a seal request for a namespace WITHOUT a seal of its own: refused, nothing changes (the requests that
+				// follow still reach its mounts)
+				var plain []int
+				for _, n := range k.nss[1:] {
+					under := false // below a namespace that is sealed right now: the request does not get that far
+					for _, a := range k.nss {
+						if a.sealable && k.pending[a.ord] && strings.HasPrefix(n.path, a.path) {
+							under = true
+						}
+					}
+					if !n.sealable && !under {
+						plain = append(plain, n.ord)
+					}
+				}
+				if len(plain) > 0 {
+					k.sealOp(plain[r.Intn(len(plain))], true)
+				}
 			}
 			if nested && r.Chance(4) {
 				k.nsRotate(2 + r.Intn(2))
